@@ -161,10 +161,10 @@ class World:
         cb = HarnessCallback(fn)
         if phase == "pre":
             loop.call_soon(cb)
-        elif self.in_select:
-            loop.call_at(self.now, cb)
         else:
-            self.at_turn(self.turn + 1, lambda: loop.call_at(self.now, cb))
+            # a timer due now: collected after the I/O callbacks of this turn (inside select)
+            # or of the next turn (outside select); the loop does not sleep in between
+            loop.call_at(self.now, cb)
 
     def alloc_fd(self) -> int:
         fd = self.next_fd
